@@ -290,6 +290,11 @@ def judgeCancel (n : Nat) (keepTok : String) (doc : Doc) (rhs : List String) : S
 
 def tokens (line : String) : List String := (line.splitOn " ").filter (· ≠ "")
 
+/-- `<bounds>`, `<note>`, `<user>` elements of the file: the scanner yields them, the worker's empty
+`case *osm.Note, *osm.Bounds, *osm.User:` skips them — they are not objects of the document -/
+def isExtra (t : String) : Bool := t == "B" || t == "N" || t == "U"
+def parseDoc (objToks : List String) : Option Doc := (objToks.filter (!isExtra ·)).mapM parseObj
+
 def judgeLine (line : String) : String :=
   let toks := tokens line
   let lhs := toks.takeWhile (· ≠ "=>")
@@ -297,25 +302,28 @@ def judgeLine (line : String) : String :=
   match lhs with
   | "h" :: _pos :: rest =>
     let keepToks := rest.takeWhile (· ≠ "|")
-    match (rest.drop (keepToks.length + 1)).mapM parseObj with
+    match parseDoc (rest.drop (keepToks.length + 1)) with
     | some doc => judgeHist keepToks doc rhs
     | none => "BAD parse"
   | "c" :: n :: keepTok :: "|" :: objToks =>
-    match objToks.mapM parseObj with
+    match parseDoc objToks with
     | some doc => judgeCancel (n.toNat?.getD 0) keepTok doc rhs
     | none => "BAD parse"
   | "x" :: keepTok :: _runs :: seedTok :: "|" :: objToks =>
-    match parseKeep keepTok, objToks.mapM parseObj with
+    match parseKeep keepTok, parseDoc objToks with
     | some (k, ks, kname), some doc =>
       let dang := !noDanglingB doc
       let onEdge : Bool := match ks with
         | .bounds a b c d => doc.any fun o => o.key.kind == .node && decide (inClosedRect a b c d o.x o.y) &&
             (o.x == a || o.x == c || o.y == b || o.y == d)
         | _ => false
+      let nExtra := (objToks.filter isExtra).length
+      let deep := (doc.filter fun o => o.key.kind == .rel).length ≥ 30 && doc.length ≤ (doc.filter fun o => o.key.kind == .rel).length + 8
+      let kname := kname ++ (if nExtra > 0 then "-extra" else "") ++ (if deep then "-deepchain" else "")
       let cls := s!"{kname}{if onEdge then "-edge" else ""}-{if dang then "dangling" else "closed"}-{sizeClass doc.length}"
       if !uniqueKeysB doc then s!"OK {cls}-skipped" else
       match rhs with
-      | "timeout" :: _ => s!"SPEC {cls} extraction-does-not-return"
+      | "timeout" :: w => s!"SPEC {cls} extraction-does-not-return (hangs; must not depend on GOMAXPROCS) {" ".intercalate w}"
       | "panic" :: w => s!"SPEC {cls} extraction-panics {" ".intercalate w}"
       | "error" :: w => s!"SPEC {cls} extraction-returns-error {" ".intercalate w}"
       | "crash" :: w => s!"SPEC {cls} extraction-crashes-the-process {" ".intercalate w}"
@@ -414,7 +422,7 @@ condition (fos = false) over all interleavings of two workers (used for notes / 
 def exploreLine (line : String) : String :=
   match tokens line with
   | "x" :: keepTok :: _ :: _ :: "|" :: objToks =>
-    match parseKeep keepTok, (objToks.takeWhile (· ≠ "=>")).mapM parseObj with
+    match parseKeep keepTok, parseDoc (objToks.takeWhile (· ≠ "=>")) with
     | some (k, _, _), some doc =>
       let show_ := fun (o : Option (List String)) => match o with | none => "cap" | some l => ";".intercalate l
       s!"fixed={show_ (exploreAll ⟨true, k, 2⟩ doc 30000)} original={show_ (exploreAll ⟨false, k, 2⟩ doc 30000)} closure={idsStr ((closure doc k).filter (presentB doc))}"
